@@ -349,6 +349,14 @@ func execOp(op pOp, r *rInput) (res string) {
 		return "model: " + detBytes(m) + " json: " + j
 	case "lineutils":
 		lines := strings.Split(r.dsl, "\n")
+		keep := append([]string(nil), lines...)
+		defer func() {
+			for i := range keep {
+				if i >= len(lines) || lines[i] != keep[i] {
+					res = "INPUT-MODIFIED: the lines slice passed to the line-number helpers was changed"
+				}
+			}
+		}()
 		var sb strings.Builder
 		for _, n := range []string{"doc", "a", "viewer", "view", "c1", "group", "parent"} {
 			i1, i2, i3, i4 := utils.GetTypeLineNumber(n, lines), utils.GetRelationLineNumber(n, lines), utils.GetConditionLineNumber(n, lines), utils.GetExtendedTypeLineNumber(n, lines)
@@ -571,7 +579,9 @@ func (c *pureCtx) check(cfg simrt.Config) ([]mismatch, simrt.Stats, string) {
 				add("input.modified", "%s on input %d: %s", rs.op.Kind, rs.op.In, rs.input)
 			}
 			want := refOf(rs.op)
-			if rs.res != want {
+			if strings.HasPrefix(rs.res, "INPUT-MODIFIED") {
+				add("input.modified", "%s on input %d: %s", rs.op.Kind, rs.op.In, rs.res)
+			} else if rs.res != want {
 				class := "result.differs"
 				if strings.HasPrefix(rs.res, "PANIC") {
 					class = "result.panic"
